@@ -359,7 +359,7 @@ int KSI_AbstractHttpClient_new(KSI_CTX *ctx, KSI_NetworkClient **http) {
 		goto cleanup;
 	}
 
-	tmp->setStringParam(&c->mimeType, "application/ksi-request");
+	res = tmp->setStringParam(&c->mimeType, "application/ksi-request");
 	if (res != KSI_OK) {
 		KSI_pushError(ctx, res, NULL);
 		goto cleanup;
